@@ -82,9 +82,9 @@ def main(tier, replay):
             if not s["sweep"]:
                 return None
             for r in rows:
-                if 0.3 < r["cert"]["J0"]["x"] < 0.7 and r["dem"]["J0"] > 1e-4:
-                    r["dem"]["J0"] *= 1.001
-                    return "delivered demand of J0 x 1.001"
+                if 0.3 < r["cert"]["J0"]["x"] < 0.7 and r["dem"]["J0"] > 1e-3:
+                    r["dem"]["J0"] *= 1.02
+                    return "delivered demand of J0 x 1.02"
             return None
         hyd.selftest(ck, "C07", good, props, mutate)
         if min(br.values()) == 0:
